@@ -52,7 +52,7 @@ SPECS["C13"] = {
                 "and notification split for top-level drops -, let channels arrive, end the listener; a whole "
                 "poll_next, with its own yield points live, inside Tracker::drop); the run is logged as the flat list "
                 "of PerKeyRace.rop it amounts to with the decision-view observations and the program counter after "
-                "every listener action, and compared inside Coq with PerKeyRace.rrun; n in 1..3, <=2 keys, 4..30 "
+                "every listener action, and compared inside Coq with PerKeyRace.rrun; n in 1..3, <=3 keys (hash collisions as in the main part), 4..30 "
                 "tokens; non-trivial = something happened between two atomic actions of a poll or inside "
                 "Tracker::drop; thorough adds a bounded-exhaustive family (every choice of one of six op lists at each "
                 "of the three yield points of one poll, 3 prefixes, 4 follow-ups, n = 1, 2)",
@@ -62,7 +62,9 @@ SPECS["C13"] = {
     "thorough": {"count": 20000},
     "sweeps": [["--len", "6"]],
     "nontrivial": lambda c: "shed" in c["tags"] or "close+same-key-arrival-pending-at-one-poll" in c["tags"],
-    "rule": "scripts over ops {Arrive k, Close cid, Poll, EndListener}, n in 1..3, <=3 keys, 4..40 ops, "
+    "rule": "scripts over ops {Arrive k, Close cid, Poll, EndListener}, n in 1..3, <=3 keys (the key type handed to the "
+            "real limiter hashes only the lowest bit of the key: keys 0 and 2 are different by Eq and collide in every hash "
+            "map), 4..40 ops, "
             "generated state-aware from one splitmix64 stream (a third force the pattern 'close; "
             "same-key arrival; poll'); non-trivial = the real code shed a channel or had a close and a "
             "same-key arrival pending at one poll; distinct = distinct script text; thorough adds every "
@@ -1174,7 +1176,8 @@ SPECS["C02"] = {
                     "the theorems about wake-driven runs are for ONE fixed fair schedule (dispatch first, then calls in "
                     "index order, until nothing is woken); the real client is additionally run under a second schedule "
                     "(part wake-alt: calls in descending order first, dispatch last) and judged by the monitor alone; "
-                    "other schedules, and schedule independence on the server side, are neither proved nor tested "
+                    "the server likewise (part server-wake-alt: woken execute() futures in descending order first, "
+                    "the Requests stream last; monitor alone); other schedules are neither proved nor tested "
                     "(AUDIT.md round 2, F15)",
                     "request buffer and in-flight limit >= 1"],
 }
@@ -1259,8 +1262,22 @@ SPECS["C18"]["level_note"] = SPECS["C18"]["level_note"].replace(
 
 
 # C02, server half: wake-driven Requests stream + execute() futures
-SPECS["C02"]["parts"] = SPECS["C02"]["parts"] + [C02_SERVER_PART]
-SPECS["C02"]["coq_targets"] = SPECS["C02"]["coq_targets"] + ["Checks/C02server.vo"]
+C02_SERVER_ALT_PART = dict(C02_SERVER_PART)
+C02_SERVER_ALT_PART.update({
+    "name": "server-wake-alt",
+    "run_args": ["--order", "alt"],
+    "cases_header": HDR.format(mods="Transport TimerWheel Server ServerWake Checks.C02salt"),
+    "quick": {"count": 300},
+    "thorough": {"count": 12000},
+    "rule": "the wake-driven server scripts of part server-wake under a SECOND fair schedule: in every round of a settle "
+            "the woken execute() futures are polled first, in descending index order, the Requests stream last. The "
+            "order of the events inside a settle legitimately depends on the schedule, so nothing is compared with the "
+            "model (verdict bit 0 is never set): the monitor c02s_ok, which judges what holds once nothing is woken any "
+            "more, decides on the real trace; scripts, non-trivial and distinct as in part server-wake (the generator "
+            "runs the real code under the first schedule)",
+})
+SPECS["C02"]["parts"] = SPECS["C02"]["parts"] + [C02_SERVER_PART, C02_SERVER_ALT_PART]
+SPECS["C02"]["coq_targets"] = SPECS["C02"]["coq_targets"] + ["Checks/C02server.vo", "Checks/C02salt.vo"]
 SPECS["C02"]["trusted_base"] = SPECS["C02"]["trusted_base"] + SRV_TB
 SPECS["C02"]["level_text"] += (
     " Server side (part server-wake): the real Requests stream and every real execute() future are polled only after "
@@ -1317,6 +1334,45 @@ for _pid in ("C14", "C09"):
         "yielded an error) and compared observation by observation with ServerExec.exec_run inside Coq; monitor: "
         "stops_after_error and the contract over EVERY poll of the induced run, and no item / no inner poll after the "
         "error.")
+
+# ---- C09 part ioerr: a failing BYTE STREAM under the shipped serde transport (coq/ReadFault.v, harness `ioerr`) ----
+IOERR_PART = {
+    "name": "ioerr",
+    "harness": "ioerr",
+    "gen_args": [],
+    "run_args": [],
+    "cases_header": HDR.format(mods="ReadFault Checks.C09ioerr"),
+    "case_term": lambda c: f"({c['cfg']}, {c['ops']}, {c['obs']})",
+    "quick": {"count": 300},
+    "thorough": {"count": 5000},
+    "sweeps": [[]],
+    "nontrivial": has("read-failed"),
+    "rule": "part ioerr: 0..6 responses (boundary ids) written by the real serde transport (bincode / JSON over "
+            "LengthDelimitedCodec) into a buffer, optionally followed by the first 1..12 bytes of one more frame; the real "
+            "transport reads them from a byte stream that hands them out in a cyclic chunk pattern (with Pending results) and "
+            "then FAILS every poll_read with one of ten io::ErrorKinds (ConnectionReset, ConnectionAborted, BrokenPipe, "
+            "TimedOut, UnexpectedEof, Other, NotConnected, PermissionDenied, InvalidData, InvalidInput); the items of the "
+            "transport's Stream are compared with ReadFault.rf_model (every complete message, then an error item of kind "
+            "Other whose source is the stream's error, then end) and judged by ReadFault.rf_ok (the failure is reported as "
+            "an error item right after the last complete message, never as a clean end-of-stream); non-trivial = the byte "
+            "stream's failing read was reached; thorough adds every kind x codec x {0,1,3} messages x 3 partial-frame "
+            "lengths x 3 chunk patterns",
+    "max_shrinks": 2,
+}
+_sp = SPECS["C09"]
+_sp["parts"] = _sp["parts"] + [IOERR_PART]
+_sp["coq_targets"] = _sp["coq_targets"] + ["Checks/C09ioerr.vo"]
+_sp["trusted_base"] = _sp["trusted_base"] + [
+    "part ioerr: tokio-util's FramedRead (complete buffered frames are decoded before the next read; a failing poll_read "
+    "is yielded as Some(Err) and the stream then ends) and tokio-serde's Framed are modelled by ReadFault.rf_model, tied "
+    "to the shipped transport by the ioerr driver, not verified"]
+_sp["level_text"] += (
+    " Part ioerr (third session): a failure of the byte stream UNDER the shipped serde transport is reported by the "
+    "transport's Stream as an error item right after the last complete message and never as a clean end-of-stream "
+    "(which the dispatch and the server channel would take for an orderly shutdown): C09_ioerr_model_ok, "
+    "C09_ioerr_shape, C09_ioerr_clean_end_rejected about the model ReadFault.v; the real "
+    "tarpc::serde_transport::Transport is driven over byte streams failing with ten io::ErrorKinds and compared item by "
+    "item.")
 
 # ---- chain composition (coq/Chain*.v, harness `chain`): parts of C04, C18, C07 ----
 CHAIN_RULE = ("REAL chains of depth 1..3: node i = client::new + BaseChannel::with_defaults(rx).requests() over "
@@ -1463,7 +1519,7 @@ for _pid in ("C16", "C09"):
             "modulo/DelayQueue insert/unchecked time arithmetic in the non-test code of the anchored files and "
             "compares it with the pinned, justified map tools/panic_sites.json on every run"]
 
-# Translator side condition (C03, C11, C02, C13): the queue inventory of the anchored sources must equal the pinned
+# Translator side condition (C03, C11, C02, C13, C04 - the cascade relies on the cancellation queues being lossless): the queue inventory of the anchored sources must equal the pinned
 # map tools/queue_inventory.json (every channel / queue construction with its capacity expression, every lossy op).
 def queue_inventory():
     import subprocess, sys
@@ -1473,7 +1529,7 @@ def queue_inventory():
     return p.returncode == 0, p.stdout[-2500:]
 
 
-for _pid in ("C03", "C11", "C02", "C13"):
+for _pid in ("C03", "C11", "C02", "C13", "C04"):
     SPECS[_pid].setdefault("side_conditions", []).append(("queue_inventory", queue_inventory))
     SPECS[_pid]["trusted_base"] = SPECS[_pid]["trusted_base"] + [
         "translator: tools/queue_inventory.py lists every channel / queue / semaphore construction (with its capacity "
